@@ -16,7 +16,7 @@ for p in props:
     if mod is None or pid in NA:
         na.append({'property_id': pid, 'reason': NA.get(pid, 'not yet claimed: static rules under construction (DESIGN.md section 4)')})
         continue
-    rules = [r for r, _, t in mod.RULES]
+    rules = [e[0] for e in mod.RULES]
     checks.append({
         'property_id': pid,
         'quick_cmd': './check %s --tier quick' % pid,
@@ -26,10 +26,11 @@ for p in props:
         'engine': 'tlint',
         'level_claimed': {
             'category': 'other',
-            'text': 'static analysis: the rules %s decide, on every path of the anchored functions of the current '
-                    'source, the structural clauses listed in DESIGN.md section 4/%s (necessary conditions of the '
-                    'property), not the runtime behaviour itself; a violation is reported only with a concrete witness '
-                    '(residual polynomial, ordering, path, index interval or table entry)' % (', '.join(rules), pid),
+            'text': 'static analysis of the current source (parsed with ast on every run; never imported or executed by CPython): the rules %s '
+                    'decide the clauses listed in DESIGN.md section 4/%s either symbolically (polynomial identities, finite ordering domains, '
+                    'write-effect summaries: all inputs of that clause) or by abstract interpretation of the anchored functions with the '
+                    'checker\'s own AST interpreter on a finite, enumerated case domain (bounded: the domain is stated in the evidence); a '
+                    'violation is reported only with a concrete witness (input case, residual polynomial, ordering, call chain)' % (', '.join(rules), pid),
             'design_ref': 'DESIGN.md section 4, %s' % pid,
         },
         'level_note': 'trusted base: CPython ast parser, the tlint engine, the specification tables in '
@@ -47,8 +48,9 @@ m = {
         'add_only': True,
     },
     'engines': [{'name': 'tlint', 'path': '/verif/tlint', 'serves_properties': [c['property_id'] for c in checks],
-                 'kind_free_text': 'repository-specific static analyser: ast loader, structured path enumeration with exact '
-                                   'polynomial normal forms, finite ordering domains, table/sibling agreement rules'}],
+                 'kind_free_text': 'repository-specific static analyser: ast loader, AST interpreter over abstract objects / tagged values '
+                                   '(tlint.orders, absint, npstub, netmodel) for finite case domains, structured path enumeration with exact '
+                                   'polynomial normal forms, finite ordering domains, write-effect summaries'}],
     'checks': checks,
     'notes': 'source_commits are the unguarded "fix:" repairs of genuine defects (see known_findings.json, DESIGN.md section 5); no instrumentation hooks exist.',
     'not_applicable': na,
